@@ -616,7 +616,7 @@ let () = Modes.register "bind-trace" (fun records mismatches ->
   let bump t k = Hashtbl.replace t k (1 + (try Hashtbl.find t k with Not_found -> 0)) in
   let stat () =
     if !scn <> "?" then
-      Printf.printf "STAT trace %s calls=%d changed=%d ops=%d unexplained=%d inv=%d known=%d kinds=%s ops=%s\n" !scn !n_calls !n_changed !n_ops !n_unexpl !n_inv !n_known
+      Printf.printf "STAT trace %s calls=%d changed=%d ops=%d unexplained=%d inv=%d known=%d kinds=%s opkinds=%s\n" !scn !n_calls !n_changed !n_ops !n_unexpl !n_inv !n_known
         (String.concat "," (Hashtbl.fold (fun k v acc -> Printf.sprintf "%s:%d" k v :: acc) kinds []))
         (String.concat "," (Hashtbl.fold (fun k v acc -> Printf.sprintf "%s:%d" k v :: acc) opkinds [])) in
   let finish_step () =
